@@ -492,8 +492,15 @@ pub fn run_with(rng: &mut Rng, n: usize, rep: &mut Report, lines: &mut Option<Ve
                                 rep.fail(format!("C03 kamino_withdraw paid the user {} tokens while Kamino released {}", paid, released));
                             }
                             let exact_value = ((BigInt::from(gone) * &liq_sf) / &col) >> 60u32;
+                            // (see mon_solend: marginfi's own announcement one unit above the exact value — known finding C20-F2 — plus the
+                            // handler's one-unit tolerance lets a venue that overpays by two units through; named as such)
+                            let announced_over: Option<i128> = r0.collateral_to_liquidity(gone.max(0) as u64).ok().map(|a| a as i128)
+                                .filter(|a| BigInt::from(*a) > exact_value && (paid - *a).abs() <= 1);
                             if BigInt::from(paid) > &exact_value + 1 {
-                                rep.fail(format!("C03 kamino_withdraw paid {} tokens for {} collateral whose exact value is {}", paid, gone, exact_value));
+                                match announced_over {
+                                    Some(a) => rep.fail(format!("C03 kamino_withdraw accepted a venue paying {} tokens for {} collateral whose exact value is {}: marginfi's own conversion announces {} (conversion-announces-above-exact: denominator truncation) and tolerates one unit more", paid, gone, exact_value, a)),
+                                    None => rep.fail(format!("C03 kamino_withdraw paid {} tokens for {} collateral whose exact value is {}", paid, gone, exact_value)),
+                                }
                             }
                             // C20: … and at most the exact value of the collateral DEBITED FROM THE POSITION
                             {
@@ -501,7 +508,10 @@ pub fn run_with(rng: &mut Rng, n: usize, rep: &mut Report, lines: &mut Option<Ve
                                 let v = ((&debited * &liq_sf) / &col) >> 60u32;
                                 if BigInt::from(paid) > &v + 1 {
                                     for tag in ["C20", "C03"] {
-                                        rep.fail(format!("{} kamino_withdraw (all = {}) paid {} tokens while the position was debited {} collateral whose exact value is {}: the conversion overstates what the position is worth", tag, all, paid, debited, v));
+                                        match announced_over {
+                                            Some(a) if debited == BigInt::from(gone) => rep.fail(format!("{} kamino_withdraw (all = {}) accepted a venue paying {} tokens while the position was debited {} collateral whose exact value is {}: marginfi's own conversion announces {} (conversion-announces-above-exact: denominator truncation) and tolerates one unit more", tag, all, paid, debited, v, a)),
+                                            _ => rep.fail(format!("{} kamino_withdraw (all = {}) paid {} tokens while the position was debited {} collateral whose exact value is {}: the conversion overstates what the position is worth", tag, all, paid, debited, v)),
+                                        }
                                     }
                                 }
                             }
